@@ -99,12 +99,9 @@ GROUPS = {
          generic=[("R", "Type"), ("I", "Pds.Reservoir.RngI R")],
          self=[("k", "N")], self_mut=[("rng", "R"), ("reservoir", "L(N)"), ("i", "N"), ("skip_until", "N")],
          param_types={"obj": "N"}, returns="self",
-         subst=[(r"self\.skip_until = t \+ self\.draw_gap\(t\);", "let g = rng_gap(t); self.skip_until = t + g;"),
-                (r"self\.skip_until = self\.i \+ 1 \+ self\.draw_gap\(self\.i \+ 1\);", "let g = rng_gap(self.i + 1); self.skip_until = self.i + 1 + g;"),
-                (r"self\.rng\.gen_range\(0\.\.=self\.i\)", "rng_below(self.i + 1)"),
-                (r"self\.rng\.gen_range\(0\.\.self\.k\)", "rng_below(self.k)")],
-         effects={"rng_gap": ("I.gap {self.k} {0} {self.rng}", "N", "self.rng"),
-                  "rng_below": ("I.below {0} {self.rng}", "N", "self.rng")}),
+         # requests to the scripted RNG interface, recognised in the syntax tree wherever they occur (evaluation order kept)
+         effect_calls={"self.draw_gap": ("pair", "I.gap {self.k} {0} {self.rng}", "N", ["self.rng"]),
+                       "self.rng.gen_range": ("pair", "I.below {0} {self.rng}", "N", ["self.rng"])}),
     dict(file="src/reservoirsampling.rs", fn="clear", lean="reservoir_clear", mode="flow",
          generic=[("R", "Type")],
          self=[], self_mut=[("rng", "R"), ("reservoir", "L(N)"), ("i", "N"), ("skip_until", "N")], returns="self"),
